@@ -133,6 +133,17 @@ def impl(case):
             return {"skip": True, "why": "empty language"}
     elif grammar.start not in grammar.rules:
         return {"skip": True, "why": "empty language"}
+    order = case["grammar"].get("rule_order", "asis")
+    if order != "asis" and not is_u and case["grammar"]["kind"] == "cfg":
+        # the same grammar with its rule table stored in another order
+        items = list(grammar.rules.items())
+        if order == "reversed":
+            items.reverse()
+        else:
+            random.Random(case["weights"]["seed"]).shuffle(items)
+        treq = grammar.type_request
+        grammar = CFG(grammar.start, {S: dict(d) for S, d in items}, clean=False)
+        grammar.type_request = treq
     n = grammar.programs()
     if case["grammar"]["kind"] == "inf":
         if n >= 0:
